@@ -143,7 +143,7 @@ def fmtResponse (resp : Response) (panics : Bool := false) : String :=
   | .customNotFound (.plain h) => s!"nf={h} code={(ownCode h).getD 200}"
   -- engine.notFoundHandler: next runs, then `cw.WriteHeader(404)` (ignored when next wrote a status)
   -- (a handler that panics or calls runtime.Goexit never returns to the wrapper: no 404 is forced)
-  | .customNotFound (.engine (some h)) => s!"nf={h} code={(ownCode h).getD (if panics then 200 else 404)}"
+  | .customNotFound (.engine (some h)) => s!"nf={h} code={engineNotFoundStatus (ownCode h) (!panics)}"
   | .customNotFound (.engine none) => "404"
   | .defaultNotFound => "404"
 
@@ -435,7 +435,7 @@ def runReq (r : Report) (st : St) (sidx : Nat) (l : Line) (m p : String) (auth :
       | [hk, ck] =>
         if srv ∧ hk.startsWith "nf=" ∧ ck.startsWith "code=" ∧ !panicked then
           let id := (dropStr 3 hk).toNat?.getD 0
-          if (dropStr 5 ck).toNat? ≠ some ((ownCode id).getD 404) then
+          if (dropStr 5 ck).toNat? ≠ some (engineNotFoundStatus (ownCode id) true) then
             r := r.violation sidx l.idx s!"request {m} {p}: the custom not-found handler nf={id} ran but the response status is [{dropStr 5 ck}], not [{(ownCode id).getD 404}] (no route matches: 404 unless the handler wrote a status itself)"
       | _ => pure ()
       -- every outcome kind of the user handler: whatever it does, it is the handler the property names, and
